@@ -624,4 +624,133 @@ theorem check_surplus_stub_parks (u N : Nat) (w : Watcher) (s : State) (hi : Idl
     have := entries_idxs (surplus objs w.pids N) 0 (i + 5) K0.now j hj
     simpa using this
 
+/-! ## Part 6: the induction over the timer firings -/
+
+/-- a timer firing that is not the last one -/
+theorem mid_stepS (u i polls : Nat) (T : List Nat) (w : Watcher) (a : Arbiter) (k0 : Kernel) (n : Nat) (s : State)
+    (hw : SOk u w) (hls : a.loopStop = false)
+    (hm : MidS u i polls T w a k0 (n + 2) s) : MidS u i polls T w a k0 (n + 1) (step s .wake) := by
+  obtain ⟨results, Q, k, objs, nid, log, rfl, I, hq⟩ := hm
+  have hg := checkBaseA_gb i
+  cases Q with
+  | nil => simp [qMeasure] at hq
+  | cons h tl =>
+    obtain ⟨_, hp, hs, o, ho, hrc⟩ := I.live h (by simp)
+    have hid : i + 4 < h.fid := (I.ids h (by simp)).1
+    by_cases hi : h.i < polls
+    · obtain ⟨p, hf, hr, _⟩ := hs
+      refine ⟨results, _, _, objs, nid + 2, log,
+        wake_reparkS u T.length w.stopSignal polls T (checkBaseA i) (i + 3) (i + 4) (.frame (i + 2) 0) _ results h tl k a objs w [] nid log
+          hg I.base p hf hr o ho hrc hi I.sorted hid (fun e he => (I.ids e he).2) hls, (I.repark hi).1, ?_⟩
+      have := (I.repark hi).2; omega
+    · have hq' : qMeasure polls tl = n + 1 := by
+        have hub := I.iub h (by simp)
+        simp only [qMeasure, List.map_cons, List.sum_cons] at hq ⊢; omega
+      have htl : tl ≠ [] := by rintro rfl; simp [qMeasure] at hq'
+      have hlen : 0 < tl.length := List.length_pos_iff.mpr htl
+      refine ⟨_, tl, _, _, nid, _,
+        wake_kill_moreS u T.length polls T (checkBaseA i) (i + 3) (i + 4) (.frame (i + 2) 0) _ results h tl k a objs w [] nid log hg hw
+          I.base hs hp o ho hrc hi I.sorted hid ?_ hls, I.kill, hq'⟩
+      have := I.count
+      simp only [List.length_cons, List.length_append, List.length_nil] at this ⊢; omega
+
+/-- the state after the last timer firing -/
+structure SurplusDone (u N : Nat) (T : List Nat) (w : Watcher) (k0 : Kernel) (s : State) : Prop where
+  idle : Idle u s
+  ws : s.ws = [{ w with pids := w.pids.filter (fun p => decide (p ∉ T)) }]
+  blocked : s.blocked = false
+  still : s.k.Still
+  gone : ∀ q ∈ T, s.k.GoneP q
+  other : ∀ q, q ∉ T → s.k.find q = k0.find q
+  npid : s.k.nextPid = k0.nextPid
+
+/-- the last timer firing -/
+theorem mid_lastS (u N i polls : Nat) (T : List Nat) (w : Watcher) (a : Arbiter) (k0 : Kernel) (s : State)
+    (hw : SOk u w) (hnd : T.Nodup) (hsub : ∀ p ∈ T, p ∈ w.pids)
+    (hslot : a.slot = some "manage_watchers") (hls : a.loopStop = false) (hstp : a.stopping = false)
+    (hrst : a.restarting = false) (hwat : a.watchers = [u])
+    (hm : MidS u i polls T w a k0 1 s) : SurplusDone u N T w k0 (step s .wake) := by
+  obtain ⟨results, Q, k, objs, nid, log, rfl, I, hq⟩ := hm
+  cases Q with
+  | nil => simp [qMeasure] at hq
+  | cons h tl =>
+    obtain ⟨_, hp, hs, o, ho, hrc⟩ := I.live h (by simp)
+    have hid : i + 4 < h.fid := (I.ids h (by simp)).1
+    have hub := I.iub h (by simp)
+    have htl : tl = [] := by
+      by_contra hc
+      have := qMeasure_pos polls tl hc
+      simp only [qMeasure, List.map_cons, List.sum_cons] at hq this; omega
+    subst htl
+    have hi : ¬ h.i < polls := by
+      simp only [qMeasure, List.map_cons, List.map_nil, List.sum_cons, List.sum_nil] at hq; omega
+    have hcount := I.count
+    simp only [List.length_cons, List.length_nil] at hcount
+    have hcov : ∀ j < T.length, j ∈ (results ++ [(h.idx, Val.bool true)]).map (·.1) := by
+      intro j hj
+      rcases I.cover j hj with h1 | h1
+      · simp [h1]
+      · simp only [List.map_cons, List.map_nil, List.mem_cons, List.mem_nil_iff, or_false] at h1
+        simp [h1]
+    rw [wake_kill_lastS u i polls T results h k a objs w [] nid log hw I.base hs hp o ho hrc hi hid I.res hcov
+      (by simp only [List.length_append, List.length_cons, List.length_nil]; omega) hnd hsub hls]
+    have I' := I.kill
+    refine ⟨⟨rfl, rfl, rfl, rfl, rfl, hls, hstp, hrst, hwat⟩, rfl, rfl, I'.still, ?_, I'.other, I'.npid⟩
+    intro q hq
+    exact I'.done q hq (by simp)
+
+/-- all the timer firings of the polling phase -/
+theorem mid_runS (u N i polls : Nat) (T : List Nat) (w : Watcher) (a : Arbiter) (k0 : Kernel)
+    (hw : SOk u w) (hnd : T.Nodup) (hsub : ∀ p ∈ T, p ∈ w.pids)
+    (hslot : a.slot = some "manage_watchers") (hls : a.loopStop = false) (hstp : a.stopping = false)
+    (hrst : a.restarting = false) (hwat : a.watchers = [u]) : ∀ (n : Nat) (s : State),
+    MidS u i polls T w a k0 (n + 1) s → SurplusDone u N T w k0 (run s (List.replicate (n + 1) .wake)) := by
+  intro n
+  induction n with
+  | zero =>
+    intro s hm
+    exact mid_lastS u N i polls T w a k0 s hw hnd hsub hslot hls hstp hrst hwat hm
+  | succ n ih =>
+    intro s hm
+    rw [List.replicate_succ, run_cons]
+    exact ih _ (mid_stepS u i polls T w a k0 n s hw hls hm)
+
+/-- **convergence from a surplus of workers that ignore the stop signal**: the check sends the stop signal to the
+    `m - N` oldest workers and parks; after exactly `(m - N) · ⌈graceful_timeout / 100 ms⌉` timer firings every one of
+    them has been killed with SIGKILL and waited for, the entries are popped, nothing is in flight, and the `N` newest
+    workers are listed in their order, running, untouched -/
+theorem check_surplus_stub_converges (u N : Nat) (w : Watcher) (s : State) (hi : Idle u s) (hd : SurplusStubOk u N w s)
+    (hgt : N < w.pids.length) :
+    let T := surplus s.objs w.pids N
+    let s' := run s (.check :: List.replicate (T.length * pollsOf w.graceful) .wake)
+    Idle u s' ∧ DatL u N (w.pids.filter (fun p => decide (p ∉ T))) s' ∧ (∀ q ∈ T, s'.k.GoneP q) ∧
+    s'.k.nextPid = s.k.nextPid := by
+  intro T s'
+  have hobj : ∀ pid ∈ w.pids, ∃ o, s.objs.find? (fun x => decide (x.pid = pid)) = some o := fun pid hp => by
+    obtain ⟨_, o, ho, _⟩ := hd.procs pid hp; exact ⟨o, ho⟩
+  have hTnd := surplus_nodup s.objs w.pids N hobj hd.nodup
+  have hTsub := surplus_sub s.objs w.pids N hobj
+  have hTlen := surplus_length s.objs w.pids N hobj
+  have hmid := check_surplus_stub_parks u N w s hi hd hgt
+  have hpos : 0 < T.length * pollsOf w.graceful := by
+    apply Nat.mul_pos _ hd.polls
+    show 0 < (surplus s.objs w.pids N).length
+    rw [hTlen]; omega
+  obtain ⟨n, hn⟩ : ∃ n, T.length * pollsOf w.graceful = n + 1 := ⟨_, (Nat.succ_pred_eq_of_pos hpos).symm⟩
+  have hdone : SurplusDone u N T w s.k s' := by
+    show SurplusDone u N T w s.k (run s (.check :: List.replicate (T.length * pollsOf w.graceful) .wake))
+    rw [run_cons, hn]
+    apply mid_runS u N s.nextId (pollsOf w.graceful) T w { s.a with slot := some "manage_watchers" } s.k hd.sok hTnd hTsub rfl
+      hi.loopStop hi.stopping hi.restarting hi.watchers n
+    have := hmid
+    rw [show (surplus s.objs w.pids N).length * pollsOf w.graceful = n + 1 from hn] at this
+    exact this
+  refine ⟨hdone.idle, ⟨_, hdone.ws, ⟨hd.wok.uid, hd.wok.status, hd.wok.respawn, hd.wok.maxAge, hd.wok.onDemand, hd.wok.hooks,
+    hd.wok.np, hd.wok.retry⟩, rfl, hdone.blocked, hdone.still, ?_⟩, hdone.gone, hdone.npid⟩
+  intro pid hp
+  have hpL := (List.mem_filter.mp hp).1
+  have hnT : pid ∉ T := by simpa using (List.mem_filter.mp hp).2
+  obtain ⟨p, hf, hr⟩ := (hd.procs pid hpL).1
+  exact ⟨p, by rw [hdone.other pid hnT]; exact hf, hr⟩
+
 end Circus.Core
